@@ -21,7 +21,8 @@
    - a known field number with an unexpected wire type, and every unknown
      field number, is kept in XXX_unrecognized as canonical tag ++ raw bytes;
    - wire types 6, 7 and a stray end-group are errors; groups are skipped to
-     the matching end-group. *)
+     the matching end-group; field number 0 is an error ("illegal tag 0") at the
+     field level of every message (not inside a skipped group). *)
 From Coq Require Import List NArith ZArith Bool.
 From Coq.Strings Require Import Byte.
 From Slim Require Import Varint.
@@ -105,6 +106,8 @@ Fixpoint tokenize (fuel : nat) (b : list byte) : option (list tok) :=
       match decode_varint b with
       | None => None
       | Some (x, b1) =>
+        if x / 8 =? 0 then None      (* "illegal tag 0": registered as an error for every message type *)
+        else
         match read_field (x / 8) (x mod 8) b1 with
         | None => None
         | Some (t, rest) =>
